@@ -247,9 +247,9 @@ theorem tag_facts : C18.tagOf .md5crypt = Gen.md5_salt_prefix ∧ C18.tagOf .sha
     for every configuration whose table is `C18.TableOk` (the tree's is: `C18.tableOk_tree`), arbitrary digests, every phrase
     and every setting, whichever of the sixteen methods it is dispatched to: the result is accepted again, dispatched to the
     same table row, and reproduces itself. -/
-theorem C01_roundtrip (cfg : Config) (hT : C18.TableOk cfg.table = true) (D : Digests) (hD : D.WF) (p s H : Bytes)
+theorem C01_roundtrip_row (cfg : Config) (hT : C18.TableOk cfg.table = true) (D : Digests) (hD : D.WF) (p s H : Bytes)
     (h : cryptPure cfg D p s = .ok H) :
-    cryptPure cfg D p H = .ok H := by
+    cryptPure cfg D p H = .ok H ∧ getHashFn cfg.table H = getHashFn cfg.table s := by
   have hfilter := (C01_result_passes_filter cfg D hD p s H h).1
   unfold cryptPure at h ⊢
   split at h; · cases h
@@ -272,7 +272,7 @@ theorem C01_roundtrip (cfg : Config) (hT : C18.TableOk cfg.table = true) (D : Di
   obtain ⟨t1, t2, t3, t4, t5, t6, t7, t8, t9, t10, t11, t12, t13⟩ := tag_facts
   -- the row for H is r again, and the method reproduces H
   suffices hh : getHashFn cfg.table H = some r ∧ cryptMethod cfg.descryptOn D r.crypt p H = .ok H by
-    rw [hh.1]; exact hh.2
+    rw [hh.1, hr]; exact ⟨hh.2, rfl⟩
   have spre : r.pfx ≠ [] → r.pfx <+: s := fun hne =>
     C18.matches_prefix r s rlen (by rw [rlen]; exact List.length_pos_iff.mpr hne) rmatch
   -- DES-family rows: the result begins with two salt characters
@@ -403,5 +403,12 @@ theorem C01_roundtrip (cfg : Config) (hT : C18.TableOk cfg.table = true) (D : Di
     have he : r.pfx = [] := by rw [rtag]; exact t12
     obtain ⟨salt, e, _⟩ := cryptDes_refeed h
     exact ⟨desCase salt _ he e (sne he), C01_descrypt_fix D p s H h⟩
+
+
+/-- **C01, both clauses, at the level of the API** — see `C01_roundtrip_row`, which also says that the result is dispatched to the
+    same table row as the setting -/
+theorem C01_roundtrip (cfg : Config) (hT : C18.TableOk cfg.table = true) (D : Digests) (hD : D.WF) (p s H : Bytes)
+    (h : cryptPure cfg D p s = .ok H) : cryptPure cfg D p H = .ok H :=
+  (C01_roundtrip_row cfg hT D hD p s H h).1
 
 end Xc.C01
